@@ -32,8 +32,9 @@ def main(tier):
     chk.extra["cfg_detail"] = detail
     atoms, pairs, triples, rnd = gen(tier, chk.seed)
     differs = optcorr.values_differ(cases.SCALAR_VALUES)
-    optcorr.run(chk, "opt/pairs", pairs, cfg, differs)
-    optcorr.run(chk, "opt/triples", triples, cfg, differs)
+    optcorr.run(chk, "opt/pairs", pairs, cfg, differs, share=True)
+    optcorr.run(chk, "opt/triples", triples, cfg, differs, share=True)
+    optcorr.run(chk, "opt/repeated-atom", list(cases.repeat_shapes(cases.mergeable_atoms())), cfg, differs, share=True)
     optcorr.run(chk, "opt/random-shared", rnd, cfg, differs, share=True)
     ev_preds = atoms + [("not", a) for a in atoms] + [(op, a, b) for op in ("and", "or", "xor") for a, b in itertools.product(atoms[:30], atoms[10:25])]
     evalcorr.run(chk, "eval/atoms+pairs", ev_preds, cases.SCALAR_VALUES)
@@ -57,9 +58,11 @@ def replay(path):
         print(json.dumps(d, indent=1))
         return 1
     sxp = S.parse1(d["input"])
-    p = lift.lower(sxp)
+    p = lift.lower(sxp, {})
+    j = optcorr.values_differ(cases.SCALAR_VALUES)
+    st = j.before(p, sxp)
     o = optimize(p)
-    w = optcorr.values_differ(cases.SCALAR_VALUES)(p, o, sxp)
+    w = j.after(st, p, o, sxp)
     print("input    :", d["input"], "=", repr(p))
     print("optimized:", repr(o))
     print("differs  :", w)
